@@ -24,7 +24,7 @@ Qed.
 Lemma pres_fresh s a s' (HI : Inv s) (H : step s a = Some s') : forall x, main (gt s' x) = NoThread -> gt s' x = tnone.
 Proof.
   destruct a as [j e]. intros x. step_inv H.
-  all: crunchT HI ltac:(pose proof (i_fresh _ HI x); i2j HI i_claim j x x).
+  all: crunchT HI ltac:(pose proof (i_fresh _ HI x); i2j HI i_claim j x x; pose proof (i_ktarget _ HI j x)).
 Qed.
 
 Lemma pres_cbmain s a s' (HI : Inv s) (H : step s a = Some s') : forall x y, cb (gt s' x) = CbJoinSet y -> main (gt s' x) = JSusp y.
@@ -81,3 +81,20 @@ Proof.
   all: crunchT HI ltac:(pose proof (i_badwake _ HI); forall_nat1 ltac:(fun z => pose proof (i_jt _ HI j z))).
 Qed.
 
+Lemma pres_ktarget s a s' (HI : Inv s) (H : step s a = Some s') : forall x y, main (gt s' x) = KCancel y -> main (gt s' y) <> NoThread.
+Proof.
+  destruct a as [j e]. intros x y. step_inv H.
+  all: crunchT HI ltac:(pose proof (i_ktarget _ HI x y); pose proof (i_ktarget _ HI j y); pose proof (i_fresh _ HI y)).
+Qed.
+
+Lemma pres_creq s a s' (HI : Inv s) (H : step s a = Some s') : forall x, cancelled (gt s' x) = true -> creq (gh (gt s' x)) = true.
+Proof.
+  destruct a as [j e]. intros x. step_inv H.
+  all: crunchT HI ltac:(pose proof (i_creq _ HI x); pose proof (i_creq _ HI j)).
+Qed.
+
+Lemma pres_acted s a s' (HI : Inv s) (H : step s a = Some s') : forall x, acted (gh (gt s' x)) = true -> creq (gh (gt s' x)) = true.
+Proof.
+  destruct a as [j e]. intros x. step_inv H.
+  all: crunchT HI ltac:(pose proof (i_acted _ HI x); pose proof (i_acted _ HI j); pose proof (i_creq _ HI j)).
+Qed.
